@@ -5,6 +5,13 @@ from vlib.core import hexs, unhex
 
 MAX_KEY = 65535
 SENTINEL = -(2 ** 63)
+MAXMS = 9223372036854          # last whole millisecond of system_clock::time_point = kMaxPlausibleEpochMs after FC12b (cross-checked
+                               # against Gen/Kv.lean and against what the harness prints in `stats`)
+
+
+def deadline(now, ttl):
+    """now + ttl, saturated at the last representable/persistable instant (the reference map's TTL deadline)."""
+    return min(now + ttl * 1000, MAXMS)
 
 
 # ------------------------------------------------------------------ reference map with absolute expiry (the spec)
@@ -49,7 +56,8 @@ class RefMap:
             err = key_err(k)
             if err:
                 return "err:" + err
-            self.m[k] = (v, self.now + ttl * 1000)
+            self.m[k] = (v, deadline(self.now, ttl))
+            self.prune()
             return "ok"
         if op in ("setbatch", "setbatchttl"):
             i0 = 1 if op == "setbatch" else 2
@@ -62,7 +70,8 @@ class RefMap:
             if any(key_err(k) for k, _ in pairs):
                 return "err:badBatch"
             for k, v in pairs:
-                self.m[k] = (v, None if ttl is None else self.now + ttl * 1000)
+                self.m[k] = (v, None if ttl is None else deadline(self.now, ttl))
+            self.prune()
             return "ok"
         if op == "get":
             k = unhex(toks[1])
@@ -313,6 +322,10 @@ def gen_more(rng, n_ops, ref, keys, cfg, free=False, allow_reopen=True, allow_bi
             op = "set %s %s" % (hexs(k), hexs(gen_value(rng, allow_big)))
         elif r < 300:
             ttl = rng.choice([1, 1, 2, 3, 5, 60, 3600, 86400, 0, -1]) if rng.chance(9, 10) else rng.range(1, 10 ** 6)
+            if rng.chance(1, 12):
+                # deadlines at and beyond the end of the clock: ~253 years, seconds::max(), the exact room left, one more / one less
+                room = (MAXMS - ref.now) // 1000
+                ttl = rng.choice([8000000000, 2 ** 63 - 1, 9223372036, max(room, 1), room + 1, max(room - 1, 1), 292277026596])
             op = "setttl %s %s %d" % (hexs(k), hexs(gen_value(rng)), ttl)
         elif r < 400:
             op = "get %s" % hexs(rng.choice(keys + outside + [b""]))
@@ -322,7 +335,7 @@ def gen_more(rng, n_ops, ref, keys, cfg, free=False, allow_reopen=True, allow_bi
             now = ref.now
             when = rng.choice([now - 1000, now - 1, now, now + 1, now + 999, now + 1000, now + 1001, now + 5000, now + 3600000,
                                0, -5, 1, now + rng.range(1, 20000)])
-            op = "expireat %s %d" % (hexs(rng.choice(keys + outside)), when)
+            op = "expireat %s %d" % (hexs(rng.choice(keys + outside)), min(when, MAXMS))
         elif r < 620:
             op = "persist %s" % hexs(rng.choice(keys + outside))
         elif r < 660:
@@ -342,7 +355,7 @@ def gen_more(rng, n_ops, ref, keys, cfg, free=False, allow_reopen=True, allow_bi
                 kk = rng.choice(keys)
                 if kk not in ks:
                     ks.append(kk)
-            op = "setbatchttl %d" % rng.choice([1, 2, 5, 3600, 0]) + "".join(" %s %s" % (hexs(x), hexs(gen_value(rng))) for x in ks)
+            op = "setbatchttl %d" % rng.choice([1, 2, 5, 3600, 0, 8000000000, 2 ** 63 - 1]) + "".join(" %s %s" % (hexs(x), hexs(gen_value(rng))) for x in ks)
         elif r < 720:
             p = rng.choice([b"a", b"ab", b"user:", b"\x00", b"k", b"", b"q"])
             ref.prune()
@@ -370,6 +383,20 @@ def gen_more(rng, n_ops, ref, keys, cfg, free=False, allow_reopen=True, allow_bi
                 t = now + rng.choice([3600000, 86400000, 10 ** 9])
             if t < now:
                 t = now
+            t = min(t, MAXMS - 1)
+            if pe and c < 6 and rng.chance(2, 3):
+                # exact-deadline reads through the cache fast path: warm the cache just before the deadline, then read AT it and after it
+                owners = [k2 for k2, (v2, e2) in ref.m.items() if e2 == e][:3]
+                for tt in (e - 1, e, e + 1):
+                    if ref.now <= tt <= MAXMS - 1:
+                        emit("now %d" % tt)
+                        dist["now"] = dist.get("now", 0) + 1
+                        for k2 in owners:
+                            emit("get %s" % hexs(k2))
+                            dist["get@deadline"] = dist.get("get@deadline", 0) + 1
+                if read_every:
+                    read_all()
+                continue
             op = "now %d" % t
         else:
             op = "evict %s %s" % (hexs(rng.choice(keys + outside)), rng.choice(["cur", "cur", "cur", "stale", "zero"]))
